@@ -365,6 +365,26 @@ theorem merge_interface_upper_bound {W : Colls} {types : Types} (hW : W.mem type
     flat_merge_lower_right F G hkF hGnd hc, fun X hX h1 h2 => flat_merge_greatest F G X hX h1 h2,
     flat_merge_names F G, hc⟩
 
+/-- **`fails_iff_incompatible` for one `merge_interface` call** (flat, with the repaired
+configuration and the fuel `aggregate` passes): the call never panics, and it succeeds exactly
+when the two interfaces give every export name they share the same type. -/
+theorem merge_interface_fails_iff {W : Colls} {types : Types} (hW : W.mem types) (hs : Sane types) {e : Nat}
+    (fuel id : Nat) (s : AggState) (F G : Forest) (si : Interface)
+    (hT : TState W e s F) (hcfg : s.cfg.remapReplaced = true) (hfuel : 2 * types.fuel + 2 ≤ fuel)
+    (hsi : types.interfaces[id]? = some si) (huses : si.uses = [])
+    (hleaf : ∀ x, x ∈ si.exports → LeafK x.2)
+    (hG : unfoldItems (types.unfoldKind types.fuel) si.exports = some G) (hGnd : G.namesDistinct = true) :
+    ((∃ s', mergeInterface fuel e types id s = .ok ((), s')) ↔ Consistent F G) ∧
+    (∀ err, mergeInterface fuel e types id s = .error err → ∃ m, err = .err m) := by
+  rcases mergeInterface_flat_total hW hs fuel id s F G si hT hcfg hfuel hsi huses hleaf hG hGnd with
+    ⟨s', h⟩ | ⟨m, h, hnc⟩
+  · refine ⟨⟨fun _ => (mergeInterface_flat hW hs fuel id s s' F G si hT hsi huses hleaf hG hGnd h).2.2,
+      fun _ => ⟨s', h⟩⟩, fun err he => ?_⟩
+    rw [h] at he; cases he
+  · refine ⟨⟨fun ⟨s', h'⟩ => ?_, fun hc => absurd hc hnc⟩, fun err he => ?_⟩
+    · rw [h] at h'; cases h'
+    · rw [h] at he; cases he; exact ⟨m, rfl⟩
+
 /-- the hypotheses are satisfiable on a non-trivial input: after aggregating `rA` its import is a
 legal target (`frag_tstate`), `cB`'s interface is a flat source, and the merge succeeds -/
 example : fragB [rA] = true ∧ Sane cB ∧ (∃ A, aggregateAll [rA] Agg.empty = .ok A) ∧
